@@ -42,19 +42,19 @@ func (c18) Env(tier string, work string) []string {
 
 func (c18) Thresholds(tier string) map[string]int64 {
 	return map[string]int64{
-		"children-with-cold-caches":                16,
-		"goroutines":                               300,
-		"runners":                                  500,
-		"steps":                                    5000,
+		"children-with-cold-caches": 16,
+		"goroutines":                300,
+		"runners":                   500,
+		"steps":                     5000,
 		"traces-compared-with-sequential-reference": 500,
-		"cold-cache-concurrent-first-parses":       100,
-		"G=2":                                      2,
-		"G=8":                                      2,
-		"G=16":                                     2,
-		"G=64":                                     2,
-		"distinct-interleaving-prefixes":           12,
-		"race-detector-enabled-children":           16,
-		"race-canary-reported":                     1,
+		"cold-cache-concurrent-first-parses":        100,
+		"G=2":                                       2,
+		"G=8":                                       2,
+		"G=16":                                      2,
+		"G=64":                                      2,
+		"distinct-interleaving-prefixes":            12,
+		"race-detector-enabled-children":            16,
+		"race-canary-reported":                      1,
 	}
 }
 
